@@ -40,6 +40,7 @@ var hostilePrograms = map[string]string{
 	"copy-userdict-into-systemdict":   "/q 1 def userdict systemdict copy pop FontDirectory /zz 1 put",
 	"rebind-true-false":               "systemdict /true false put systemdict /false true put systemdict /StandardEncoding 3 put",
 	"grow-stacks-and-fail":            "{ currentdict begin 1 } loop",
+	"exceed-budget":                   "{ } loop",
 }
 
 // probe: a workload whose digest must not depend on anything that ran before
@@ -57,6 +58,14 @@ func probeDigest() string {
 	intp2 := ps.NewInterpreter()
 	e2 := intp2.ExecuteString("1 (x) add")
 	parts = append(parts, fmt.Sprint("err:", e2))
+	// the texts of the errors a fresh instance reports (the budget error is a package-level value)
+	intp3 := ps.NewInterpreter()
+	intp3.MaxOps = 40
+	e3 := intp3.ExecuteString("{ } loop")
+	intp4 := ps.NewInterpreter()
+	intp4.CheckStart = true
+	e4 := intp4.ExecuteString("not postscript")
+	parts = append(parts, fmt.Sprint("errs:", e3, "|", e4, "|", ps.ErrExecutionLimitExceeded, "|", ps.ErrNoPostScript))
 	for _, in := range corpus.All(1) {
 		r := corpus.Run(in.Entry, bytes.NewReader(in.Data))
 		parts = append(parts, in.Name+":"+sha([]byte(r.Digest+"|"+r.Err+"|"+r.Panic)))
